@@ -105,6 +105,11 @@ def headers(draw, kinds=KINDS):
          "ctype1": "RA---" + suffix, "ctype2": "DEC--" + suffix, "cunit1": "deg", "cunit2": "deg",
          "crpix1": cx, "crpix2": cy, "crval1": lon0, "crval2": lat0,
          "cd1_1": cd[0][0], "cd1_2": cd[0][1], "cd2_1": cd[1][0], "cd2_2": cd[1][1]}
+    if draw(st.integers(0, 9)) == 0:
+        # a tile-compressed (fpack) image: the image size is in ZNAXIS1/2, NAXIS1/2 are those of the tile table
+        h["znaxis1"], h["znaxis2"] = nx, ny
+        h["naxis1"], h["naxis2"] = 8, draw(st.integers(16, 300))
+        h["zimage"] = True
     rpix = max(math.hypot(px - cx, py - cy) for px in (1.0, float(nx)) for py in (1.0, float(ny)))
     if kind in ("TANPV", "TPV"):
         rdeg = rpix * scale
@@ -147,11 +152,19 @@ def headers(draw, kinds=KINDS):
     return h
 
 
+def image_dims(h):
+    """Image size in pixels: ZNAXIS1/2 of a tile-compressed image when present (NAXIS1/2 then describe the
+    binary table that holds the tiles), else NAXIS1/2."""
+    if "znaxis1" in h:
+        return float(h["znaxis1"]), float(h["znaxis2"])
+    return float(h["naxis1"]), float(h["naxis2"])
+
+
 @st.composite
 def pixels(draw, h, n, crpix_outside=False):
     """Pixel positions in the image [1,NAXIS1] x [1,NAXIS2]; CRPIX itself is included when it lies in
     the image (or, for the forward transform, wherever it is: crpix_outside=True)."""
-    nx, ny = float(h["naxis1"]), float(h["naxis2"])
+    nx, ny = image_dims(h)
     inside = 1.0 <= h["crpix1"] <= nx and 1.0 <= h["crpix2"] <= ny
     out = []
     for _ in range(n):
@@ -198,10 +211,12 @@ def classify_header(h):
                     int(math.floor(math.log10(90.0 - abs(h["crval2"])))))
     if min(h["crval1"], 360.0 - h["crval1"]) < 1.0:
         nt.append("nt:seam")
-    if not (1.0 <= h["crpix1"] <= h["naxis1"] and 1.0 <= h["crpix2"] <= h["naxis2"]):
+    if not (1.0 <= h["crpix1"] <= image_dims(h)[0] and 1.0 <= h["crpix2"] <= image_dims(h)[1]):
         nt.append("nt:crpix-outside")
     det = h["cd1_1"] * h["cd2_2"] - h["cd1_2"] * h["cd2_1"]
     labs.append("parity:%s" % ("+" if det > 0 else "-"))
+    if "znaxis1" in h:
+        labs.append("tile-compressed(ZNAXIS)")
     return labs + nt
 
 
@@ -369,7 +384,7 @@ def _monomials(u, v, order, constant):
 def independent_inverse_residual(h, pts, ngrid=36):
     """Worst residual (pixels) over a grid on the image and the given pixels of a
     least-squares inverse polynomial of the documented order, fitted here."""
-    nx, ny = float(h["naxis1"]), float(h["naxis2"])
+    nx, ny = image_dims(h)
     gx, gy = np.meshgrid(np.linspace(1.0, nx, ngrid), np.linspace(1.0, ny, ngrid))
     x = np.concatenate([gx.ravel(), [p[0] for p in pts]])
     y = np.concatenate([gy.ravel(), [p[1] for p in pts]])
